@@ -85,13 +85,16 @@ func runC38(p *core.Prog, r *core.Report) {
 			}
 			v := mr.Canon(ret.Results[0])
 			if c, isC := v.(*ssa.Const); isC && c.IsNil() {
-				inLoop := false
+				inLoop, afterLoop := false, false
 				for h := range hdrs {
 					if h.Dominates(b) && reaches(b, h) {
 						inLoop = true
 					}
+					if h.Dominates(b) {
+						afterLoop = true
+					}
 				}
-				r2.Check(!inLoop, core.FuncName(fn)+"#return-nil", p.InstrPos(ret), "success only after the loop", "Verify returns nil from inside the loop: later validators are skipped")
+				r2.Check(!inLoop && afterLoop, core.FuncName(fn)+"#return-nil", p.InstrPos(ret), "success only after the loop", "Verify returns nil without having run the loop over all validators to its end (from inside the loop, or on a path that bypasses it)")
 			} else {
 				r2.Check(core.KnownNonNil(mr, v, b), core.FuncName(fn)+"#return-err", p.InstrPos(ret), "validator error returned", "a return inside the validator loop may report success")
 			}
